@@ -22,7 +22,7 @@ func init() {
 			"sub-step observations come from the verif-tagged hook verifSubstep in models/storage/storage.go",
 		},
 		Workloads: []core.Workload{
-			{Name: "storage", Variant: "plain", N: core.Tiered(210, 15000), Run: c13Case, TimeoutS: 120},
+			{Name: "storage", Variant: "plain", N: core.Tiered(630, 15000), Run: c13Case, TimeoutS: 120},
 		},
 		RequireTags: func(string) []string { return []string{"spill", "empty", "substeps>1", "demand-met", "demand-above-max", "demand-below-min"} },
 	})
